@@ -58,10 +58,7 @@ Proof. vm_compute. split; reflexivity. Qed.
     leaves without default ([keys_ok true]) and the data the operations bring is shaped like the
     schema ([op_src_ok]); neither distinct source keys nor well-formed key values are needed. *)
 Theorem C18_keys_unique_full_statement_false : ~ C18_keys_unique_full_statement.
-Proof.
-  intros H. specialize (H dkids dops [Some (DList [])] dres eq_refl eq_refl eq_refl eq_refl eq_refl).
-  vm_compute in H. discriminate H.
-Qed.
+Proof. exact unique_history_needs_no_key_default. Qed.
 Print Assumptions C18_keys_unique_full_statement_false.
 
 Theorem C18_keys_unique_partial : forall kids ops tgt r,
@@ -93,6 +90,7 @@ Print Assumptions C18_merge_keeps_keys_unique.
 (** key equality (val.Equal per key leaf) is symmetric and transitive on all values *)
 Theorem C18_key_equality_sym : forall a b, key_eqb a b = true -> key_eqb b a = true.
 Proof. exact key_eqb_sym. Qed.
+Print Assumptions C18_key_equality_sym.
 Theorem C18_key_equality_trans : forall a b c, key_eqb a b = true -> key_eqb b c = true -> key_eqb a c = true.
 Proof. exact key_eqb_trans. Qed.
 Print Assumptions C18_key_equality_trans.
